@@ -3,11 +3,9 @@
     iterates net_read until the connection is dead.  Definitions only.
 
     Buffers are lists: [inn] = lineinn[0..linenlen), [buf] = lineinbuf[0..readoffset).
-    The environment is the unread rest of the byte stream and the schedule: the
-    k-th read() returns min(k-th schedule entry (at least 1), space, bytes left)
-    bytes; an exhausted schedule delivers one byte per read.  A read at the end
-    of the stream is the closed connection: net_read(fatal=1) does not return
-    (dieerror), modelled as [Dead]. *)
+    The environment is the byte stream cut into segments (see [env]).  A read
+    at the end of the stream is the closed connection: net_read(fatal=1) does
+    not return (dieerror), modelled as [Dead]. *)
 From Qv Require Import Common.Bytes Gen.GenNetio.
 
 Fixpoint index_of (c : N) (l : bytes) : option nat :=
@@ -34,16 +32,32 @@ Definition find_eol (b : bytes) : option nat * bool :=
   | Some c, None => (Some (S c), false)
   end.
 
-Record env := { rest : bytes; sched : list nat }.
+(** the network: [cur] = bytes of the current segment not yet read, [future] =
+    segments that arrive later.  A read() returns bytes of one segment only (it
+    blocks until the next one arrives when [cur] is empty); any sequence of
+    read() results can be produced by a suitable segmentation. *)
+Record env := { cur : bytes; future : list bytes }.
+
+Definition rest (e : env) : bytes := cur e ++ concat (future e).
+
+(** the next non-empty segment becomes current *)
+Fixpoint next_segment (f : list bytes) : option (bytes * list bytes) :=
+  match f with
+  | [] => None
+  | c :: f' => match c with [] => next_segment f' | _ => Some (c, f') end
+  end.
 
 (** readinput(buf, len, fatal=1): at most len-1 bytes *)
 Definition readinput (e : env) (len : nat) : option (bytes * env) :=
-  match rest e with
-  | [] => None                                   (* read() = 0: connection closed *)
-  | _ =>
-      let want := match sched e with [] => 1 | k :: _ => Nat.max 1 k end in
-      let k := Nat.min want (len - 1) in
-      Some (firstn k (rest e), {| rest := skipn k (rest e); sched := tl (sched e) |})
+  let seg := match cur e with
+             | [] => next_segment (future e)
+             | _ => Some (cur e, future e)
+             end in
+  match seg with
+  | None => None                                   (* read() = 0: connection closed *)
+  | Some (c, f) =>
+      let k := Nat.min (length c) (len - 1) in
+      Some (firstn k c, {| cur := skipn k c; future := f |})
   end.
 
 Inductive item := Line (l : bytes) | Einval | E2big | Dead | Stuck.
@@ -137,5 +151,16 @@ Fixpoint reader (fuel : nat) (s : rstate) : list (item * nat) :=
       end
   end.
 
+(** cut a stream into segments of the given sizes (0 counts as 1; what is left after the last cut is one segment) *)
+Fixpoint segments (stream : bytes) (cuts : list nat) : list bytes :=
+  match cuts with
+  | [] => [stream]
+  | k :: cuts' =>
+      match stream with
+      | [] => []
+      | _ => firstn (Nat.max 1 k) stream :: segments (skipn (Nat.max 1 k) stream) cuts'
+      end
+  end.
+
 Definition run_reader (stream : bytes) (cuts : list nat) : list (item * nat) :=
-  reader (S (S (length stream))) {| inn := []; en := {| rest := stream; sched := cuts |} |}.
+  reader (S (S (length stream))) {| inn := []; en := {| cur := []; future := segments stream cuts |} |}.
